@@ -27,3 +27,23 @@ Theorem C14_hidden_sequence_suppresses_repeat : forall cfg k code,
   sq_active (k_seq k) = true -> sq_mode (k_seq k) <> 2 -> handle_repeat cfg k code = Ok [].
 Proof. exact hidden_sequence_suppresses_repeat. Qed.
 Print Assumptions C14_hidden_sequence_suppresses_repeat.
+
+(* completeness at the handler (the key-outputs table itself is built by the parser and is checked by the oracle of the check,
+   not here): if, for the repeated position, the table of a layer in the search order or of the default layer lists a key that is
+   held at the output, a repeat is written, and for a held key *)
+Theorem C14_repeat_forwarded_when_listed : forall cfg k code evs ls ly outs kc,
+  handle_repeat cfg k code = Ok evs ->
+  sq_active (k_seq k) && negb (sq_mode (k_seq k) =? 2) = false ->
+  trans_order (kc_layout cfg) (k_layout k) = Ok ls ->
+  In ly ls \/ ly = default_layer (k_layout k) ->
+  outputs_for cfg ly code = Some outs -> In kc outs -> repeatable cfg k kc ->
+  exists kc', evs = write_repeat cfg kc' /\ repeatable cfg k kc'.
+Proof. exact repeat_forwarded_when_listed. Qed.
+Print Assumptions C14_repeat_forwarded_when_listed.
+
+Theorem C14_repeat_of_unmapped_held_key : forall cfg k code evs,
+  handle_repeat cfg k code = Ok evs ->
+  sq_active (k_seq k) && negb (sq_mode (k_seq k) =? 2) = false ->
+  repeatable cfg k code -> exists kc', evs = write_repeat cfg kc' /\ repeatable cfg k kc'.
+Proof. exact repeat_of_unmapped_held_key. Qed.
+Print Assumptions C14_repeat_of_unmapped_held_key.
